@@ -55,6 +55,8 @@ type batOpts struct {
 	setterP     float64
 	horizonMin  int64 // keep running at least this long before the final stop
 	lateOnly    bool  // with a never-returning callback present, allow the tail to be long
+	busyFDs     []int64 // how long a listener keeps the loop busy inside flush-done (v2)
+	busyAudits  []int64 // ... inside the audit events
 }
 
 func defaultBatOpts() batOpts {
@@ -69,6 +71,7 @@ func defaultBatOpts() batOpts {
 		gapMS: []int64{1, 10, 40, 150}, coincideP: 0.08, burstP: 0.2, reenqP: 0.12, maxReenq: 3, nonBatchP: 0.3,
 		pauseP: 0.05, flushP: 0.08, probeP: 0.15, capChangeP: 0.05, rejectP: 0.06, holdP: 0.0,
 		costShiftP: 0.0, stopMidP: 0.15, startLateP: 0.15, setterP: 0.02, horizonMin: 0,
+		busyFDs: []int64{0, 0, 0, 0, 0, 3*MS + 1, 40*MS + 7, 160*MS + 3}, busyAudits: []int64{0, 0, 0, 0, 0, 5*MS + 1, 60*MS + 3},
 	}
 }
 
@@ -98,6 +101,12 @@ func genRandomBat(rng *rand.Rand, name string, o batOpts) *Scenario {
 	sc.Pause = pick(rng, o.pauses...)
 	if sc.Gen == 2 {
 		sc.MaxConc = pick(rng, o.maxconcs...)
+	}
+	if len(o.busyFDs) > 0 && sc.Gen == 2 {
+		sc.BusyFD = pick(rng, o.busyFDs...)
+	}
+	if len(o.busyAudits) > 0 {
+		sc.BusyAudit = pick(rng, o.busyAudits...)
 	}
 	effMaxOp := dfl(sc.MaxOp, 60*SEC)
 	effFlush := dfl(sc.Flush, 100*MS)
@@ -322,7 +331,7 @@ func genRandomBat(rng *rand.Rand, name string, o batOpts) *Scenario {
 		t += 17
 		steps = append(steps, Step{At: t, Kind: "stop"})
 	}
-	t += dfl(sc.Pause, 500*MS) + 5*MS + 3
+	t += dfl(sc.Pause, 500*MS) + 5*MS + 3 + 4*(sc.BusyFD+sc.BusyAudit)
 	steps = append(steps, Step{At: t, Kind: "probe"})
 	sort.SliceStable(steps, func(i, j int) bool { return steps[i].At < steps[j].At })
 	sc.Steps = steps
